@@ -55,11 +55,11 @@ package analysis
 //@   at call InsertError#* before assert[and-false-pattern] arg1 == 16 ==> node.Op == lexer.TkOpAnd
 //@        && (typeis(node.Exp1, "*ast.FalseExp") || typeis(node.Exp2, "*ast.FalseExp"))
 //@   at call InsertError#* before assert[float-equality-pattern] arg1 == 21 ==> (node.Op == lexer.TkOpEq || node.Op == lexer.TkOpNe)
-//@        && (typeis(node.Exp1, "*ast.FloatExp") || typeis(node.Exp2, "*ast.FloatExp"))
+//@        && (isFloatLiteral(node.Exp1) || isFloatLiteral(node.Exp2))
 //@   at call InsertError#* before assert[same-operands-pattern] arg1 == 14 ==>
 //@        (node.Op == lexer.TkOpOr || node.Op == lexer.TkOpAnd || node.Op == lexer.TkOpLt || node.Op == lexer.TkOpLe
 //@         || node.Op == lexer.TkOpGt || node.Op == lexer.TkOpGe || node.Op == lexer.TkOpEq || node.Op == lexer.TkOpNe)
-//@        && streq(GetExpName(node.Exp1), GetExpName(node.Exp2))
+//@        && streq(GetExpName(node.Exp1), GetExpName(node.Exp2)) && CompExp(node.Exp1, node.Exp2)
 //@   at call InsertError#* before assert[same-operands-only-for-fully-named-operands] arg1 == 14 ==>
 //@        !containsByte(GetExpName(node.Exp1), "#") && !containsByte(GetExpName(node.Exp2), "#")
 //@   at call InsertError#* before assert[only-these-types] arg1 == 14 || arg1 == 15 || arg1 == 16 || arg1 == 21
@@ -129,8 +129,11 @@ package analysis
 //@ func (*Analysis).cgLocalVarDeclStat
 //@   props C07 C05 C06 C11
 //@   at call AddLocVar#* before assert[initialisers-analysed-before-any-name-is-bound] hits("cgExp#0") >= len(node.ExpList) || hits("cgExp#0") > len(node.NameList)
+// EVERY initialiser is analysed, also those beyond the number of names (`local a = 1, 2, x` reads x: fix cb0c284)
+//@   at call AddLocVar#* before assert[C07,C20,every-initialiser-is-analysed] hits("cgExp#0") == len(node.ExpList)
+//@   loop range:node.ExpList#0 exits-early-only-if [C07,C20,every-initialiser-is-analysed] false
 //@   at call AddLocVar#0 before assert[name-bound-at-its-own-location-in-the-current-scope] arg0 == scope && streq(arg2, node.NameList[i]) && arg5 == node.VarLocList[i]
-//@   loop range:node.ExpList#0 invariant hits("cgExp#0") == rangeindex + 1
+//@   loop range:node.ExpList#0 invariant hits("cgExp#0") == rangeindex + 1 && rangeindex + 1 <= len(node.ExpList)
 // every local the statement declares records the statement's range (IsCorrectPosition keeps it invisible inside it)
 //@   loop range:node.ExpList#1 step [C05,C06,C11,declared-local-records-its-declaring-statement] varInfo.DeclStatLoc == node.Loc
 //@   loop for:i<nNames step [C05,C06,C11,declared-local-records-its-declaring-statement] (hits("AddLocVar#1") > prev(hits("AddLocVar#1")) ==> lastresult("AddLocVar#1").DeclStatLoc == node.Loc)
@@ -237,6 +240,8 @@ package analysis
 //@   props C20
 //@   at call InsertRelateError#0 before assert[duplicate-if-only-for-structurally-equal-conditions] arg1 == common.CheckErrorDuplicateIf && 0 <= i && i < j && j < len(node.Exps)
 //@        && CompExp(node.Exps[i], node.Exps[j]) && a.checkTerm == results.CheckTermFirst
+// the else branch is not a condition (the parser stands a `true` in for it, ElseFlag): it is never the second of a pair
+//@   at call InsertRelateError#0 before assert[else-branch-is-not-a-condition] !(node.ElseFlag && j == len(node.Exps) - 1)
 //@   loop for:j<len(node.Exps) exits-early-only-if [every-later-condition-is-compared] false
 //@   loop for:j<len(node.Exps) invariant 0 <= i && i < j
 //@   loop range:node.Exps#0 invariant rangeindex >= -1
@@ -282,4 +287,14 @@ package analysis
 // indexed; a name such as "_G" that comes from a STRING prefix - ("_G").x = 1 - has a single part
 //@ func (*Analysis).checkLeftAssign
 //@   sweep C01 -nil -div -assert-type -panic -extern-pre -typed-nil
+//@ end
+
+// ---- C20: what counts as a float literal for the float-equality check (type 21) ----
+// a float literal, also behind a sign or in parentheses: -1.5, (1.5) (fix d0845f3; before, only the bare literal)
+//@ func isFloatLiteral
+//@   props C20
+//@   functional
+//@   ensures[float-literal-possibly-signed-or-parenthesised] result <==> (typeis(exp, "*ast.FloatExp")
+//@        || (typeis(exp, "*ast.ParensExp") && isFloatLiteral(as(exp, "*ast.ParensExp").Exp))
+//@        || (typeis(exp, "*ast.UnopExp") && as(exp, "*ast.UnopExp").Op == lexer.TkOpUnm && isFloatLiteral(as(exp, "*ast.UnopExp").Exp)))
 //@ end
